@@ -330,6 +330,11 @@ def gen_case(rng, family, kind, shape_name, shape):
             "stack_name": shape_name, "stack": gen_stack(rng, n, shape)}
     if kind == "est":
         case["objective"] = gen_objective_op(rng, n, ["X", "Y", "Z"], diagonal=False)
+        if n_callers > 1 and rng.random() < 0.8:
+            # different evaluators share the one wrapped estimator: every caller has its own observable (own Pauli strings and
+            # weights, each asymmetric under qubit relabelling through gen_terms' odd single-qubit term)
+            for cl in callers:
+                cl["cfg"] = {"kind": "est", "objective": gen_objective_op(rng, n, ["X", "Y", "Z"], diagonal=False)}
     else:
         case["alpha"] = rng.choice(["1", "1/2", "1/4"])
         if family == "classical":
@@ -594,7 +599,7 @@ def g_case(case, ci, batches, expected, legacy=False):
         kind = f"KBits {g_list(g_q(Fraction(x)) for x in me['objective']['table'])} {g_q(Fraction(me['alpha']))} {g_z(me['shots'])}"
     init = g_opt(g_circ(n, case["init"]) if case["init"] is not None else None)
     exp = f"(Ok {g_list(g_q(x) for x in expected)})" if not (isinstance(expected, tuple)) else f'(Err "{expected[1]}"%string)'
-    return (f"mkcase ({kind}) {init} {g_list(g_circ(n, g) for g in cl['circuits'])} {g_list(g_params(p) for p in cl['params'])} "
+    return (f"mkcase ({kind}) {g_nat(case['n_params'])} {init} {g_list(g_circ(n, g) for g in cl['circuits'])} {g_list(g_params(p) for p in cl['params'])} "
             f"{g_list(layers)} {g_bool(legacy)} {exp}")
 
 
@@ -781,6 +786,8 @@ def run(ctx):
         ctx.tally(f"callers:{len(case['callers'])}")
         ctx.tally("init:" + ("yes" if case["init"] is not None else "no"))
         shots_set = {cfg(case, k).get("shots") for k in range(len(case["callers"]))}
+        if len(case["callers"]) > 1 and case["kind"] == "est":
+            ctx.tally("multi-caller-estimator:" + ("own-observable-per-caller" if any("cfg" in c for c in case["callers"]) else "shared-observable"))
         if len(case["callers"]) > 1 and case["kind"] != "est":
             ctx.tally("multi-caller-sampler:" + ("different-shots-per-caller" if len(shots_set) > 1 else "same-shots"))
             if len({cfg(case, k)["kind"] for k in range(len(case["callers"]))}) > 1:
